@@ -35,3 +35,22 @@ Section SortDictionary.
       let rank := child_rank nf desc values in
       sort_impl so se nf desc (map (fun i => (i, nth (key_of keys i) rank 0)) v) n limit Nat.compare.
 End SortDictionary.
+
+(* sort_list / sort_list_view / sort_fixed_size_list: each valid list slot carries the slice of child ranks
+   (rank[start..end], i.e. the rank of each of its elements), slices are compared with Ord::cmp on &[u32] *)
+Definition rank_fn (vc : val -> val -> comparison) (nf' : bool) (child : list oval) (o : oval) : nat :=
+  match o with
+  | None => if nf' then count_nulls child else length child
+  | Some v => (if nf' then count_nulls child else 0) + count_le false vc child v
+  end.
+Definition list_ranks (f : oval -> nat) (o : oval) : list nat :=
+  match o with Some (VList l) => map f l | _ => [] end.
+
+Section SortList.
+  Variable so : (nat * list nat -> nat * list nat -> comparison) -> list (nat * list nat) -> list (nat * list nat).
+  Variable se : (nat * list nat -> nat * list nat -> comparison) -> nat -> list (nat * list nat) -> list (nat * list nat).
+  (* child = the child array (every list element is one of its slots); child_rank(child, options) = map rank_fn child *)
+  Definition sort_list (child : list oval) (a : list oval) (nf desc : bool) (limit : option nat) : list nat :=
+    sort_to_indices so se (lex_cmp Nat.compare)
+      (fun i => list_ranks (rank_fn (vcmp (child_nf nf desc)) (child_nf nf desc) child) (slot a i)) a nf desc limit.
+End SortList.
